@@ -69,7 +69,7 @@ def atoms(feat):
     if "reflink" in feat:
         a += [ph.map(lambda s: f"[{s}][ref1]"), st.just("[ref2]"), st.just("[ref1][]"), st.just("[undefined ref]"), st.just("[text][nodef]")]
     if "autolink" in feat:
-        a += [st.sampled_from(["<http://auto.link/x>", "<mailto:a@b.c>", "<a@b.co>", "http://bare.example.com/p", "www.example.com", "https://e.x/a_(b)", "user@example.com",
+        a += [st.sampled_from(["<http://auto.link/x>", "<mailto:a@b.c>", "<a@b.co>", "http://bare.example.com/p", "www.example.com", "https://e.x/a(b)c", "user@example.com",
                               "http://example.com/wiki/Murphy's_law", "www.example.com/it's", "https://e.x/q?a=\"b\"", "http://e.x/wait...more"])]
     if "html" in feat:
         a += [st.sampled_from(["<b>", "</b>", "<br/>", '<span class="a b">', "</span>", '<a href="x y" title=\'t u\'>', "<!-- a comment here -->", "<!--c-->", "<x-y z>"])]
@@ -90,8 +90,37 @@ def inline_tokens(feat):
     if not a: return w
     return st.one_of(w, w, w, st.one_of(a))
 
+_TAG_EDGE = _re.compile(r"^(\{%|\{\{|\{#|<!--)|(%\}|\}\}|#\}|-->)$")
+
+
+def _separate_tags(toks, feat):
+    """Known findings of C06 (an authored space between two tags is removed; adjacent unpaired tags are split): unless the
+    feature is on, two tag-like tokens never follow each other directly, and the unpaired adjacent pair is not used."""
+    out = []
+    for t in toks:
+        if t == "{% a %}{% b %}" and "tags_adjacent" not in feat:
+            t = "{% a %}"
+        if out and "tag_spacing" not in feat and _TAG_EDGE.search(t) and _TAG_EDGE.search(out[-1]):
+            out.append("and")
+        out.append(t)
+    return out
+
+
+_HAZ_WORDS = frozenset(w for v in HAZ.values() for w in v)
+_TAG_DELIM = _re.compile(r"\{%|%\}|\{\{|\}\}|\{#|#\}|<!--|-->")
+
+
+def _no_hazards_next_to_tags(toks, feat):
+    """Known finding (tag heuristics depend on the line structure, C02 tag-block-heuristics-second-run / C01
+    escaped-numeral-in-tag-paragraph): unless the feature is on, a paragraph that holds a tag or comment holds no
+    block-marker look-alikes and no escaped numerals."""
+    if "tags_with_hazards" in feat or not any(_TAG_DELIM.search(t) and not t.startswith("`") for t in toks):
+        return toks
+    return [("word" if (t in _HAZ_WORDS or _re.fullmatch(r"\d+\\[.)]", t)) else t) for t in toks]
+
+
 def para_tokens(feat, lo=1, hi=30):
-    return st.lists(inline_tokens(feat), min_size=lo, max_size=hi)
+    return st.lists(inline_tokens(feat), min_size=lo, max_size=hi).map(lambda toks: _no_hazards_next_to_tags(_separate_tags(toks, feat), feat))
 
 @st.composite
 def para_lines(draw, feat, lo=1, hi=30):
@@ -200,6 +229,11 @@ def blocks(draw, feat, depth, lo=1, hi=4, ctx=()):
                 tight_join = False  # text directly after a link definition: recorded known finding (title capture)
             if not tight_join: out.append("")
             if "blanklines" in feat and draw(st.integers(0, 6)) == 0: out.append("")
+            if "footnote" not in feat and b and b[0].startswith("    ") and any(l.startswith("[^fn1]:") for l in out):
+                # an indented code block after a footnote would be a continuation of the footnote (blocks nested in
+                # footnotes are the separate feature "footnote"): separate it with a paragraph
+                if not any(l and not l.startswith((" ", "[^fn1]:")) for l in out[max(i for i, l in enumerate(out) if l.startswith("[^fn1]:")):]):
+                    out += ["sep.", ""]
         out += b
     return out
 
@@ -224,6 +258,10 @@ def list_block(draw, feat, depth, ctx=()):
         if depth > 0 and draw(st.integers(0, 2)) == 0:
             body = draw(blocks(feat, depth - 1, 1, 3, ctx + ('list',)))
             is_para = False
+            if body and body[0].lstrip().startswith("|"):
+                # a table that starts on the list marker line is not read as a table by Marko (recorded with the known
+                # finding table-first-block-of-list-item): the item starts with a paragraph instead
+                body = ["item", ""] + body
         else:
             body = draw(para_lines(feat, 1, 20))
         if task and body and body[0][:1] not in "`~#>|-*+=_[ \t" and not body[0][:1].isdigit():
@@ -249,7 +287,11 @@ def quote_block(draw, feat, depth, ctx=()):
 
 @st.composite
 def footnote_block(draw, feat, depth, ctx=()):
-    body = draw(para_lines(feat, 1, 15))
+    # the first paragraph has no block-marker look-alikes (as its first word one would make the first block a list/quote/...:
+    # that form is the separate feature fn_nonpara_first)
+    body = draw(para_lines(feat if "fn_nonpara_first" in feat else frozenset(f for f in feat if not f.startswith("haz_")), 1, 15))
+    if "footnote" not in feat:
+        return indent(body, "[^fn1]: ", "    ")  # footnote_simple: one paragraph
     if depth > 0 and draw(st.booleans()):
         if "fn_nonpara_first" in feat and draw(st.booleans()):
             body = draw(blocks(feat, depth - 1, 1, 2, ctx + ('fn',)))
@@ -262,6 +304,7 @@ def block_(feat, depth, ctx=()):
     if "list" in feat: opts.append(list_block(feat, depth, ctx))
     if "quote" in feat: opts.append(quote_block(feat, depth, ctx))
     if "footnote" in feat and depth >= 1: opts.append(footnote_block(feat, depth, ctx))
+    elif "footnote_simple" in feat and not ctx: opts.append(footnote_block(feat, depth, ctx))
     return st.one_of(opts)
 
 def doc_raw(feat, depth=2, hi=5):
@@ -276,6 +319,6 @@ def doc(feat, depth=2, hi=5):
 
 
 ALL = frozenset(["haz_" + k for k in HAZ] + ["cjk", "emph", "strike", "code", "link", "reflink", "autolink", "html", "tags", "escape", "fnref", "entity",
-                 "hardbreak", "spaces", "code_fences_inside", "atx", "setext", "fenced", "indcode", "table", "hr", "refdef", "tagline", "tightjoin", "blanklines",
+                 "hardbreak", "spaces", "footnote_simple", "code_fences_inside", "atx", "setext", "fenced", "indcode", "table", "hr", "refdef", "tagline", "tightjoin", "blanklines",
                  "list", "olist", "olist_paren", "escape_tick", "sent_end_in_atom", "code_taglike", "fn_nonpara_first", "table_pipe_in_code", "refdef_tightjoin", "task", "listpad", "lazy", "quote", "alert", "footnote"])
 BASIC = frozenset(["emph", "code", "link", "atx", "fenced", "list", "olist", "quote", "hr", "table"])
